@@ -113,27 +113,27 @@ Theorem C16_reorientation_preserves_mesh : forall fs oracle,
 Proof. exact reorientation_preserves. Qed.
 Print Assumptions C16_reorientation_preserves_mesh.
 
-(* PARTIAL (bounded family only, decided by vm_compute): the tetrahedron with any of the 16 subsets of its
-   faces reversed is reoriented to a consistently wound mesh whichever way the seed test answers, and the two
-   answers give opposite windings.  propagation_consistent for ALL closed edge-manifold meshes is not proved. *)
-Theorem C16_propagation_consistent_partial : forall m, In m (masks 4) ->
+(* propagation_consistent, for ALL meshes and EVERY answer of the geometric seed test: if some choice of per-face
+   reversals makes the mesh consistently wound (no directed edge used twice, i.e. two faces sharing an edge
+   traverse it in opposite directions; this covers every closed orientable edge-manifold mesh, connected or
+   not), then the reoriented mesh is consistently wound.  What the seed test decides is only the global
+   reversal of each edge-connected group. *)
+From MV Require Import Proofs.MeshPropagProofs.
+Theorem C16_propagation_consistent : forall tris oracle,
+  orientable tris -> consistent (fix_trimesh_orientation tris oracle).
+Proof. exact propagation_consistent. Qed.
+Print Assumptions C16_propagation_consistent.
+
+Example C16_propagation_nonvacuous : orientable tet.
+Proof. exact tet_orientable. Qed.
+Print Assumptions C16_propagation_nonvacuous.
+
+(* PARTIAL (bounded family only, decided by vm_compute): on the tetrahedron with any of the 16 subsets of its faces
+   reversed, the two possible answers of the seed test give exactly opposite windings of every face (the
+   orientation is determined by the seed bit).  This clause is not proved for all meshes. *)
+Theorem C16_seed_bit_determines_partial : forall m, In m (masks 4) ->
   let fs := apply_mask tet m in
   consistent (fix_trimesh_orientation fs [false]) /\ consistent (fix_trimesh_orientation fs [true]) /\
   list_eqb_face (fix_trimesh_orientation fs [true]) (map flip_face (fix_trimesh_orientation fs [false])) = true.
 Proof. exact tet_orientation_bounded. Qed.
-Print Assumptions C16_propagation_consistent_partial.
-
-(* PARTIAL (the local step of the propagation, for all faces and all free-edge sets): when a face is attached to
-   the processed region, the edge set xor-ed into free_edges is the set of directed edges of the face as it will
-   be wound (reversed iff `flip`), and that winding traverses a free edge in the OPPOSITE direction; a skipped
-   face has no edge in common with free_edges in either direction.  The global statement (every shared edge of a
-   closed edge-manifold component ends up traversed in opposite directions) is not proved. *)
-Theorem C16_propagation_step_partial : forall free tri, free <> [] ->
-  match try_tri free tri with
-  | Some (fl, es) =>
-      let t' := if fl then flip_face tri else tri in
-      (forall e, In e es <-> In e (edges_of t')) /\ (exists e, In e free /\ In (rev_e e) (edges_of t'))
-  | None => forall e, In e free -> ~ In e (edges_of tri) /\ ~ In (rev_e e) (edges_of tri)
-  end.
-Proof. exact try_tri_local. Qed.
-Print Assumptions C16_propagation_step_partial.
+Print Assumptions C16_seed_bit_determines_partial.
